@@ -120,6 +120,7 @@ type Race struct {
 	SSH      bool
 	Renewers int
 	Spell    bool
+	Driven   bool // with ACME: two revoke-cert requests driven into the window between look-up and insert (runACMEDriven)
 	ACME     bool // the certificate comes from the real ACME flow; the revocations are POST /acme/<prov>/revoke-cert signed by the
 	// owning account or by the certificate's key, mixed with POST /1.0/revoke over mTLS
 }
@@ -130,6 +131,9 @@ var (
 )
 
 func runRace(rc *Race) (string, string, string) {
+	if rc.ACME && rc.Driven {
+		return runACMEDriven(rc)
+	}
 	if rc.ACME {
 		return runRaceACME(rc)
 	}
